@@ -112,6 +112,15 @@ func (e *Engine) arith(st *State, op token.Token, a, b Value, t types.Type, p to
 				return Value{sx("mod", b.T, new(big.Int).Lsh(big.NewInt(1), uint(k)).String()), t}
 			}
 		}
+		// x & 2^k (single bit, non-negative x): ((x div 2^k) mod 2) * 2^k
+		for _, pr := range [][2]Value{{a, b}, {b, a}} {
+			if n, ok := isLit(pr[1].T); ok {
+				if k, ok2 := isPow2(n); ok2 && isUnsigned(bt) {
+					m := new(big.Int).Lsh(big.NewInt(1), uint(k)).String()
+					return Value{sx("*", sx("mod", sx("div", pr[0].T, m), "2"), m), t}
+				}
+			}
+		}
 		v := Value{sx("bits_and", a.T, b.T), t}
 		e.assume("true", e.rangeFact(v.T, t))
 		// for non-negative operands the result is bounded by both
